@@ -19,6 +19,7 @@ pub mod c14;
 pub mod c15;
 pub mod c16;
 pub mod c17;
+pub mod c18;
 pub mod c19;
 pub mod c14b;
 pub mod c11d;
@@ -65,6 +66,7 @@ pub fn run(id: &str, tier: Tier) -> i32 {
         "C15" => c15::run(tier),
         "C16" => c16::run(tier),
         "C17" => c17::run(tier),
+        "C18" => c18::run(tier),
         "C19" => c19::run(tier),
         _ => {
             eprintln!("MACHINERY: no check for {id}");
@@ -93,6 +95,7 @@ pub fn replay(id: &str, file: &serde_json::Value) -> i32 {
         "C15" => c15::replay,
         "C16" => c16::replay,
         "C17" => c17::replay,
+        "C18" => c18::replay,
         "C19" => c19::replay,
         _ => {
             eprintln!("MACHINERY: no replay for {id}");
